@@ -462,8 +462,43 @@ def _dispatch(ctx, prog):
             ctx.ob("C10.6", calls[0], okk,
                    "delta unit frames: delta <- int(delta)",
                    key="C10.6:frames:int")
-        # empty list raises before the return
+        # no additional refusal: for a supported unit the only raise is the
+        # empty-result one
         res = calls[0].data["result"]
+        n_ = tm.call(tm.glob("builtins.len"), (POSES,), ())
+        for e in r.of_kind("raise"):
+            if tm.is_const(e.live, False):
+                continue
+            cm = comparisons(e.live)
+            if any(c[1] == "Eq" and tm.is_const(c[2], 0) and
+                   is_call_to(c[0], "builtins.len") and
+                   c[0].args[1][0] is res for c in cm):
+                continue
+            di = tm.call(tm.glob("builtins.int"), (DELTA,), ())
+            safe = member == "frames" and len(cm) == 1 and (
+                cm[0] in ((n_, "LtE", di), (n_, "LtE", DELTA),
+                          (T("binop", "Sub", n_, const(1)), "Lt", di),
+                          (T("binop", "Sub", n_, const(1)), "Lt", DELTA)))
+            wrong = member == "frames" and len(cm) == 1 and (
+                cm[0] in ((T("binop", "Sub", n_, const(1)), "LtE", di),
+                          (T("binop", "Sub", n_, const(1)), "LtE", DELTA)))
+            if safe:
+                ctx.ob("C10.6", e, True,
+                       f"delta unit {member}: early refusal only when "
+                       f"delta >= number of poses (no pair can exist)",
+                       key=f"C10.6:{member}:early-refusal")
+            elif wrong:
+                ctx.ob("C10.6", e, False,
+                       f"delta unit {member}: refusal when delta >= "
+                       f"len(poses) - 1 is off by one: for delta = N-1 the "
+                       f"pair (0, N-1) exists but a filter error is raised",
+                       key=f"C10.6:{member}:early-refusal")
+            else:
+                ctx.undecidable("C10.6", e, f"delta unit {member}: "
+                                f"additional refusal under "
+                                f"{fmt(e.live)[:160]} — cannot decide "
+                                f"whether a pair could still exist")
+        # empty list raises before the return
         empt = [e for e in r.of_kind("raise")
                 if "FilterException" in (e.data.get("exc_name") or "") and
                 any(c[1] == "Eq" and tm.is_const(c[2], 0) and
